@@ -95,17 +95,22 @@ class PathSummary:
                 elif "GlobalAlloc" in name and args and field_of(args[0]) == "parent":
                     self.parent_calls.append((name.split("::")[-1], args[1:], res))
                 elif name in HELPERS and args and args[0] in (("ref", ("deref", ("arg", 1))), ("arg", 1)):
-                    self.charge_results.append((res, args[1], bb))
+                    amt = args[1]
+                    if HELPERS[name]["amount"] == "size":
+                        # the helper charges `layout.size()` of what it is handed: the caller's own size() of the same layout
+                        same = [e2[5] for e2 in p.events if e2[0] == "call" and e2[2].endswith("Layout::size") and e2[3] and e2[3][0] == args[1]]
+                        amt = same[0] if same else ("call", "core::alloc::layout::Layout::size", (args[1],), -1)
+                    self.charge_results.append((res, amt, bb, HELPERS[name]["success"]))
             elif ev[0] == "branch":
                 self.branches.append(ev)
         # a charging helper adds its amount exactly on the paths that took the Some edge of its result
-        for res, amount, bb in self.charge_results:
+        for res, amount, bb, succ in self.charge_results:
             ev = self.branch_on(lambda t, res=res: t == ("discr", res))
             if ev is None:
                 self.other_field_ops.append(("used", "charge-result-not-tested", bb))
-            elif variant_label(ev) == "Some":
+            elif variant_label(ev, succ) == succ:
                 self.net[amount] += 1
-                self.posts.append(Counter(linear(payload(res, "Some"))))
+                self.posts.append(Counter(linear(payload(res, succ))))
         for r, a in self.adds:
             self.posts.append(Counter(linear(("binop", "Add", r, a))))
         # identity: saturating_sub(a, b) - saturating_sub(b, a) == a - b  (charging only the growth)
@@ -132,13 +137,14 @@ class PathSummary:
         return None
 
 
-def variant_label(ev):
-    """Option discriminant switch: value 1 = Some, 0 = None; `otherwise` is the value not listed."""
+def variant_label(ev, success="Some"):
+    """Discriminant switch over the helper's result. Option: value 1 = Some, 0 = None; Result: 0 = Ok, 1 = Err;
+    `otherwise` is the value not listed."""
     lab, listed = ev[3], ev[4]
     if lab == "otherwise":
         rest = [v for v in (0, 1) if v not in listed]
         lab = rest[0] if len(rest) == 1 else None
-    return {0: "None", 1: "Some"}.get(lab)
+    return ({0: "Ok", 1: "Err"} if success == "Ok" else {0: "None", 1: "Some"}).get(lab)
 
 
 def classify(ps):
@@ -292,10 +298,10 @@ def check_method(chk, m, fn):
 def limit_branch(ps):
     """Find the branch on Le(post_add, limit_load): returns (event, taken_true) or None.  A verified charging helper has
     made that test itself (and the overflow test): its Some edge is the accepting edge."""
-    for res, amount, bb in ps.charge_results:
+    for res, amount, bb, succ in ps.charge_results:
         ev = ps.branch_on(lambda t, res=res: t == ("discr", res))
         if ev is not None:
-            return (ev, variant_label(ev) == "Some")
+            return (ev, variant_label(ev, succ) == succ)
     for ev in ps.branches:
         t = ev[2]
         if t[0] == "binop" and t[1] in ("Le", "Lt", "Ge", "Gt"):
@@ -381,17 +387,24 @@ def verify_helper(chk, F, fn, bb, t):
             ok_paths, why = False, "cannot identify the closure body (%d closures)" % len(cands)
             break
         closure_fn = cands[0]
-        # the helper's own result: Some(payload(Ok) + amount) on the Ok edge, None otherwise
+        # the helper's own result: Some(payload(Ok) + amount) on the Ok edge, None otherwise (or Ok(..) / Err(..): what the helper
+        # is declared to return is its own business); the amount is its second parameter, or that parameter's `Layout::size()`
         ev = next((e for e in p.events if e[0] == "branch" and e[2] == ("discr", res)), None)
         isok = ev is not None and ((ev[3] == 0) if ev[3] != "otherwise" else (0 not in ev[4]))
-        if p.ret[0] == "agg" and p.ret[1].endswith("Option::Some"):
+        amount = ("arg", 2)
+        amount_kind = "arg"
+        if len(fn.locals) > 2 and "Layout" in fn.locals[2]:
+            sz = [e for e in p.events if e[0] == "call" and e[2].endswith("Layout::size") and e[3] and ("arg", 2) in (e[3][0], e[3][0][1] if len(e[3][0]) > 1 else None, (e[3][0][1][1] if len(e[3][0]) > 1 and isinstance(e[3][0][1], tuple) and len(e[3][0][1]) > 1 else None))]
+            if len(sz) == 1:
+                amount, amount_kind = sz[0][5], "size"
+        success = "Ok" if p.ret[0] == "agg" and p.ret[1].endswith(("Result::Ok", "Result::Err")) else "Some"
+        if p.ret[0] == "agg" and p.ret[1].endswith(("Option::Some", "Result::Ok")):
             v = p.ret[2][0]
-            amount = ("arg", 2)
             want = Counter(linear(("binop", "Add", payload(res, "Ok"), amount)))
             if not isok or Counter(linear(v)) != want:
                 ok_paths, why = False, "the helper returns Some(%s) %s" % (tstr(v), "off the Ok edge of fetch_update" if not isok else "which is not previous usage + amount")
                 break
-        elif p.ret[0] == "agg" and p.ret[1].endswith("Option::None"):
+        elif p.ret[0] == "agg" and p.ret[1].endswith(("Option::None", "Result::Err")):
             if isok:
                 ok_paths, why = False, "the helper returns None although the usage was increased"
                 break
@@ -415,7 +428,7 @@ def verify_helper(chk, F, fn, bb, t):
                 cres = e[5]
                 # one operand is the closure's own argument (the current usage), the other the helper's amount
                 cur_ok = ("arg", 2) in (e[3][0], e[3][1])
-                amt_ok = ("arg", 2) in (subst_captures(x, caps) for x in (e[3][0], e[3][1]) if x != ("arg", 2))
+                amt_ok = amount in (subst_captures(x, caps) for x in (e[3][0], e[3][1]) if x != ("arg", 2))
                 somev = subst_captures(payload(cres, "Some"), caps)
                 if not (cur_ok and amt_ok and v == somev):
                     continue
@@ -436,7 +449,7 @@ def verify_helper(chk, F, fn, bb, t):
                "a refused request leaves it untouched; the helper returns Some(new usage) exactly when it charged",
                "the fetch_update that charges a request is not the checked form: %s" % why)
     if ok_paths:
-        HELPERS[fn.path] = True
+        HELPERS[fn.path] = {"success": success, "amount": amount_kind}
 
 
 def rmw_only(chk, F):
